@@ -185,6 +185,7 @@ func c01Run(c *ev.Ctx) {
 		return
 	}
 	big := c.Index%40 == 17 // datasets of a MiB and more, several per file (see below)
+	grid := c.Index%20 == 9 // many chunks along one axis of a rank 2-4 dataset (see below)
 	sbv := []uint8{0, 2, 3}[r.Intn(3)]
 	nds := r.Range(1, 3)
 	maxElems := uint64(c.Pick(4096, 65536))
@@ -197,6 +198,25 @@ func c01Run(c *ev.Ctx) {
 		d := c01GenDataset(r, i, maxElems)
 		dss = append(dss, d)
 		s.Ops = append(s.Ops, d.Op)
+	}
+	if grid {
+		// one file in twenty: a dataset of rank 2-4 with 17-70 chunks along one axis (each axis
+		// in turn) and one or two along the others: chunk indexes beyond small powers of two
+		rank := 2 + (c.Index/20)%3
+		axis := (c.Index / 60) % rank
+		dims, chunk := make([]uint64, rank), make([]uint64, rank)
+		for i := range dims {
+			chunk[i] = uint64(r.Range(1, 2))
+			dims[i] = chunk[i] * uint64(r.Range(1, 2))
+		}
+		dims[axis] = chunk[axis]*uint64(r.Range(17, 70)) - uint64(r.Intn(int(chunk[axis])))
+		k := hx.NumericKinds[r.Intn(10)]
+		v := hx.GenNumeric(r, "[]"+k, int(hx.NumElems(dims)), 2+r.Intn(2))
+		d := c01DS{Family: "numeric", Op: hx.Op{K: "create_ds", Path: "/grid", DT: k, Dims: dims, Chunk: chunk, Data: &v, Expect: "ok"}}
+		d.Layout = hx.ChunkClass(dims, chunk)
+		dss, s.Ops = []c01DS{d}, []hx.Op{d.Op}
+		nds = 1
+		c.Count("files_with_long_chunk_grids", 1)
 	}
 	if big {
 		// one file in forty: two or three datasets of 1-2 MiB each, a numeric one first, then
@@ -708,7 +728,7 @@ func c01Rewrite(c *ev.Ctx) {
 var C01 = &ev.Property{
 	ID:    "C01",
 	Level: "exploration",
-	Rule: "each case writes a file (superblock 0/2/3) with 1-3 datasets through the public API: element type from {10 numeric kinds, fixed strings, arrays, enums, opaque, object references, compound}, rank 1-4, extents from {1,2,3,4,5,7,8,9,11,13,16,17,31,32,64, random}, contiguous or chunked (whole extent, non-dividing chunk, many chunks per dimension, chunk of one element, random; numeric ones optionally filtered) and data from {zeros, extremes incl. NaN payloads / >2^31 / >2^63, ramp, random}; after Close and a fresh Open the monitor checks path, kind, shape, datatype class/size/sign and every typed read (Read, ReadStrings, ReadCompound) against the written values, and that reads without a meaning for the type report errors. Every sixth case writes one numeric dataset twice (in the same session, or in a later session through OpenDataset), enumerating byte size {small, 64 KiB less one element, 64 KiB, above} x layout x style of the first and of the last data; the last data written must be read. One case in twelve writes a chunked integer dataset whose chunks are near-copies of their predecessors (same length and same CRC-32 / Adler-32 / Fletcher-32, identical, one byte changed). One case in forty writes two or three datasets of 1-2 MiB into one file (numeric, then fixed strings much shorter than their element size, then numeric). Every numeric Read is repeated after the caller has overwritten the first result. " +
+	Rule: "each case writes a file (superblock 0/2/3) with 1-3 datasets through the public API: element type from {10 numeric kinds, fixed strings, arrays, enums, opaque, object references, compound}, rank 1-4, extents from {1,2,3,4,5,7,8,9,11,13,16,17,31,32,64, random}, contiguous or chunked (whole extent, non-dividing chunk, many chunks per dimension, chunk of one element, random; numeric ones optionally filtered) and data from {zeros, extremes incl. NaN payloads / >2^31 / >2^63, ramp, random}; after Close and a fresh Open the monitor checks path, kind, shape, datatype class/size/sign and every typed read (Read, ReadStrings, ReadCompound) against the written values, and that reads without a meaning for the type report errors. Every sixth case writes one numeric dataset twice (in the same session, or in a later session through OpenDataset), enumerating byte size {small, 64 KiB less one element, 64 KiB, above} x layout x style of the first and of the last data; the last data written must be read. One case in twelve writes a chunked integer dataset whose chunks are near-copies of their predecessors (same length and same CRC-32 / Adler-32 / Fletcher-32, identical, one byte changed). One case in twenty writes a rank 2-4 dataset with 17-70 chunks along one axis (each axis in turn). One case in forty writes two or three datasets of 1-2 MiB into one file (numeric, then fixed strings much shorter than their element size, then numeric). Every numeric Read is repeated after the caller has overwritten the first result. " +
 		"distinct = (superblock, layout class, type family, rank, size bucket, data style); every written dataset is non-trivial.",
 	Assumptions: []string{
 		"expected numeric values use the reader's documented widening to float64 computed by the same Go conversions",
